@@ -812,6 +812,11 @@ def install():
         from rpyc.core import brine
         if (brine.dumpable(count) and type(count) is not float) or type(count) is tuple:
             return orig_decref(self, key, count)
+        if r.pv(count).startswith("P"):
+            # RefCountingColl.decref compares `slot[1] < count` while holding its non-reentrant lock: with a proxy as
+            # count that comparison calls back into the peer, and a nested request that resolves a LOCAL_REF then
+            # blocks the serving thread forever (reported as an observation; not run here)
+            raise Unobservable("decref with a proxy as count (would compare under the table lock)")
         r.touch("countop", count, "", (key,))
         try:
             res = orig_decref(self, key, count)
